@@ -6,6 +6,7 @@
 (* a chain of provenance hops, each of which is semantically the identity: *)
 (*   elem    [x][0]                 mapent  {"k": x}["k"]                  *)
 (*   scall   (func() { return x })()      gocall  id(x)   -- a Go function *)
+(*   gocall2 id2(x)[0]  -- a Go function with two results                  *)
 (*   paren   (x)     tern  (true ? x : nil)     nilco  (x ?? nil)          *)
 (*                                       declared to return interface{}   *)
 (* A template is a script with one hole for the operand.  The law: for     *)
@@ -16,7 +17,7 @@
 (***************************************************************************)
 EXTENDS Integers, Sequences, TLC
 
-Provs == {"elem", "mapent", "scall", "gocall", "paren", "tern", "nilco"}
+Provs == {"elem", "mapent", "scall", "gocall", "gocall2", "paren", "tern", "nilco"}
 \* the value read out of a NAMED container that stays reachable (hl_<v> = [<v>], hm_<v> = {"k": <v>}); only directly on the variable
 NamedProvs == {"nelem", "nmapent", "ntelem"}         \* ntelem: ht_<v> = a TYPED list []T{<v>} (T the Go type of the value)
 
@@ -24,6 +25,7 @@ Hop(p, s) == CASE p = "elem"   -> "[" \o s \o "][0]"
                [] p = "mapent" -> "{\"k\": " \o s \o "}[\"k\"]"
                [] p = "scall"  -> "(func() { return " \o s \o " })()"
                [] p = "gocall" -> "id(" \o s \o ")"
+               [] p = "gocall2" -> "id2(" \o s \o ")[0]"      \* the first of the two results of a Go function (interface{}, error)
                [] p = "paren"  -> "(" \o s \o ")"
                [] p = "tern"   -> "(true ? " \o s \o " : nil)"
                [] p = "nilco"  -> "(" \o s \o " ?? nil)"
